@@ -501,6 +501,23 @@ def run_wrappers(ctx, alg, A, d):
                 ctx.fail(dict(case, via=via), [st2, dep2, None if p2 is None else [float(x) for x in p2.v][:8]],
                          [ref[0], ref[2], None if ref[1] is None else [float(x) for x in ref[1]][:8]],
                          where=f"vocab-special-{name}-{alg}")
+    # the inverses of a DYNAMIC operand (a module output) are the algebra's inversion matrices of the same side:
+    # same matrix, same refusal, same deprecation flag
+    if d <= 16:
+        for sname, S_, mk in (("two", ES.TWO_SIDED, lambda s_: ~s_), ("left", ES.LEFT, lambda s_: s_.linv()),
+                              ("right", ES.RIGHT, lambda s_: s_.rinv())):
+            refm = call(A.get_inversion_matrix, d, sidedness=S_)
+
+            def dyn(mk=mk):
+                with spa.Network():
+                    return np.array(mk(spa.State(vocab, subdimensions=1, neurons_per_dimension=2)).transform, dtype=float)
+            st2, m2, dep2 = call(dyn)
+            case = {"op": "dynamic-inverse", "alg": alg, "d": d, "side": sname}
+            ctx.count(f"dyninv {alg} {d} {sname}", branch=f"dynamic-inverse-{sname}-{st2}")
+            if outcome_key(st2, m2, dep2) != outcome_key(*refm):
+                ctx.fail(case, [st2, dep2, None if m2 is None else np.asarray(m2).ravel()[:6].tolist()],
+                         [refm[0], refm[2], None if refm[1] is None else np.asarray(refm[1]).ravel()[:6].tolist()],
+                         where=f"dynamic-inverse-{alg}")
     # the two-sided inverse through the vocabulary's text interface agrees with the algebra (value and flag)
     vocab2 = spa.Vocabulary(d, algebra=A, strict=True, pointer_gen=np.random.RandomState(3))
     vocab2.populate("A")
